@@ -111,7 +111,8 @@ def run(ctx):
              "vel_clamped_hi": 0, "vel_clamped_lo": 0, "vel_unclamped": 0, "vel_zero_width": 0,
              "pos_over_ub": 0, "pos_under_lb": 0, "pos_inside": 0, "pos_zero_width": 0, "pos_inverted_box": 0,
              "leaders_adds": 0, "leaders_rejected": 0, "leaders_truncations_cutting": 0, "leaders_tie_breaks": 0,
-             "leaders_generations": 0, "in_situ_cases": 0, "sc_mono_pairs_checked": 0, "delta_nonneg_checked": 0, "by_algorithm": {a.__name__: 0 for a in ALGS}}
+             "leaders_generations": 0, "in_situ_cases": 0, "histories": 0, "history_calls": 0, "box_changes_in_place": {}, "box_changes_by_kind": {},
+             "runs_repeated_on_one_object_after_a_box_change": 0, "sc_mono_pairs_checked": 0, "delta_nonneg_checked": 0, "by_algorithm": {a.__name__: 0 for a in ALGS}}
 
     # --------------------------------------------------------------------------------------------
     # harness-side observation: the swarm module's `uniform`, the archive module's `choice`/`sample`,
@@ -259,10 +260,19 @@ def run(ctx):
         if origin == "generated":
             ctx.sample(meta, limit=2)
 
+    def declared(alg):
+        """the declared box = what problem.parameters says NOW (the user may have changed it in place since the algorithm
+        object was built); never the algorithm's own idea of it"""
+        return [tuple(p["bounds"]) for p in alg.problem.parameters]
+
+    def history_of(alg):
+        h = getattr(alg, "_c18_history", None)
+        return None if h is None else list(h)
+
     # ---------- update_velocity ------------------------------------------------------------------
     def observe_velocity(alg, individuals, origin):
         kind = "VPsoga" if isinstance(alg, sw.PSOGA) else "VBase"
-        bounds = [tuple(p["bounds"]) for p in alg.parameters]
+        bounds = declared(alg)
         pre = [(js(i.vector), js(i.features["best_vector"])) for i in individuals]
         recs = []
         stray = []
@@ -287,6 +297,8 @@ def run(ctx):
             Hooks.usink = None
             del alg.select_leader, alg.khi
         post = [js(i.features["velocity"]) for i in individuals]
+        if getattr(alg, "_c18_history", None) is not None:
+            alg._c18_history.append("update_velocity (box %r)" % ([list(b) for b in bounds],))
         ok = len(recs) == len(individuals) and not stray
         swarm = []
         mswarm = []
@@ -303,7 +315,7 @@ def run(ctx):
             mswarm.append({"vector": x, "best_vector": b, "leader_vector": r["leader"], "r1": r1, "r2": r2, "c1": c1, "c2": c2,
                            "khi": khi_v, "inertia_draws": u[4:]})
         meta = {"kind": "update_velocity", "origin": origin, "algorithm": type(alg).__name__, "bounds": [list(b) for b in bounds],
-                "particles": mswarm, "velocity_after": post}
+                "particles": mswarm, "velocity_after": post, "history_of_this_algorithm_object": history_of(alg)}
         if not ok:
             ctx.mismatches.append({"what": "update_velocity no longer draws select_leader / 4 uniforms / khi per particle as modelled",
                                    "correspondence": "c18_vel", "case": meta})
@@ -345,15 +357,18 @@ def run(ctx):
     # ---------- update_position ------------------------------------------------------------------
     def observe_position(alg, individuals, origin):
         damp = isinstance(alg, sw.SMPSO)
-        bounds = [tuple(p["bounds"]) for p in alg.parameters]
+        bounds = declared(alg)
         pre = [(js(i.vector), js(i.features["velocity"])) for i in individuals]
         getattr(alg, "_c18_orig_update_position", alg.update_position)(individuals)
         post = [(js(i.vector), js(i.features["velocity"])) for i in individuals]
+        if getattr(alg, "_c18_history", None) is not None:
+            alg._c18_history.append("update_position (box %r)" % ([list(b) for b in bounds],))
         PS["cases"].append("{| ps_damp := %s; ps_params := %s; ps_swarm := %s |}" % (
             bl(damp), enc_params(bounds), ll([pl(enc_fl(x), enc_fl(v)) for x, v in pre])))
         PS["exp"].append("(Some %s)" % ll([pl(enc_fl(x), enc_fl(v)) for x, v in post]))
         meta = {"kind": "update_position", "origin": origin, "algorithm": type(alg).__name__, "bounds": [list(b) for b in bounds],
-                "before": [{"vector": x, "velocity": v} for x, v in pre], "after": [{"vector": x, "velocity": v} for x, v in post]}
+                "before": [{"vector": x, "velocity": v} for x, v in pre], "after": [{"vector": x, "velocity": v} for x, v in post],
+                "history_of_this_algorithm_object": history_of(alg)}
         PS["meta"].append(meta)
         stats["position_cases"] += 1
         stats["by_algorithm"][type(alg).__name__] += 1
@@ -635,6 +650,89 @@ def run(ctx):
             pop.append(p)
         observe_position(alg, pop, "generated")
 
+    # ---------- histories on ONE problem and ONE long-lived algorithm object ------------------------
+    # build; update velocities / positions; the user changes the declared box IN PLACE on problem.parameters (tightened,
+    # widened, shifted; the bounds list rebound, its items assigned, or the parameter dict replaced in the list); update
+    # again on the same object; optionally a second algorithm object built on the same problem after the change.
+    # Every call is judged, by the model and by the oracle, on the box problem.parameters declares when it is made.
+    def moved(lb, ub, how):
+        w = ub - lb
+        if not (math.isfinite(w) and 0.0 < w and abs(lb) < 1e100 and abs(ub) < 1e100 and w >= 1e-9 * max(1.0, abs(lb), abs(ub))):
+            return (lb, ub) if how != "shift" or not math.isfinite(lb + 1.0) or abs(lb) > 1e100 else (lb + 1.0, ub + 1.0)
+        if how == "tighten":
+            return (lb + w / 4, ub - w / 4)
+        if how == "tighten_much":
+            return (lb + 0.45 * w, ub - 0.45 * w)
+        if how == "widen":
+            return (lb - w, ub + w)
+        k = rng.choice([2.0, -2.0, 0.5])          # shift: away from the old box, or overlapping it
+        return (lb + k * w, ub + k * w)
+
+    def change_box(problem, how, mode, only=None):
+        new = []
+        for i, p in enumerate(problem.parameters):
+            lb, ub = p["bounds"]
+            nb = moved(lb, ub, how) if (only is None or i in only) else (lb, ub)
+            new.append(nb)
+            if nb == (lb, ub):
+                continue
+            if mode == "rebind":
+                p["bounds"] = [nb[0], nb[1]]
+            elif mode == "item":
+                p["bounds"][0] = nb[0]
+                p["bounds"][1] = nb[1]
+            else:
+                q = dict(p)
+                q["bounds"] = [nb[0], nb[1]]
+                problem.parameters[i] = q
+        stats["box_changes_in_place"][mode] = stats["box_changes_in_place"].get(mode, 0) + 1
+        stats["box_changes_by_kind"][how] = stats["box_changes_by_kind"].get(how, 0) + 1
+        return new
+
+    def fresh_particles(cls, bounds, n, with_velocity):
+        pop = []
+        for _ in range(rng.choice([1, 2, 3])):
+            vec = [gen_coord(*bounds[i]) for i in range(n)]
+            p = new_particle(cls, vec)
+            r = rng.random()
+            p.features["best_vector"] = p.vector if r < 0.25 else list(p.vector) if r < 0.4 else [gen_coord(*bounds[i]) for i in range(n)]
+            if with_velocity:
+                p.features["velocity"] = [gen_velocity(*bounds[i], vec[i]) for i in range(n)]
+            pop.append(p)
+        return pop
+
+    def gen_history_case():
+        cls = rng.choice(ALGS)
+        n = rng.choice([1, 2, 2, 3])
+        bounds = gen_bounds(n, False)
+        alg = new_alg(cls, bounds)
+        alg._c18_history = ["built on box %r" % ([list(b) for b in bounds],)]
+        fill_leaders(alg, n, bounds)
+        algs = [alg]
+        plan = rng.choice([["vel", "change", "vel", "pos"], ["vel", "pos", "change", "vel", "pos"], ["change", "vel", "pos"],
+                           ["pos", "change", "pos", "vel"], ["vel", "change", "vel", "change", "vel", "pos"],
+                           ["vel", "pos", "change", "second", "vel", "pos", "vel", "pos"], ["change", "second", "pos", "vel", "pos"]])
+        stats["histories"] += 1
+        for step in plan:
+            if step == "change":
+                how = rng.choice(["tighten", "tighten_much", "widen", "shift", "shift"])
+                mode = rng.choice(["rebind", "item", "dict"])
+                only = None if rng.random() < 0.6 else set(rng.sample(range(n), rng.randint(1, n)))
+                new = change_box(alg.problem, how, mode, only)
+                for a in algs:
+                    a._c18_history.append("problem.parameters[i]['bounds'] changed in place (%s, %s) to %r" % (how, mode, [list(b) for b in new]))
+            elif step == "second":
+                b = cls(alg.problem)                 # a second algorithm object on the same problem, built after the change
+                b._c18_history = ["second algorithm object, built on the same problem when its box was %r" % ([list(x) for x in declared(alg)],)]
+                fill_leaders(b, n, declared(alg))
+                algs.append(b)
+            else:
+                for a in (algs if rng.random() < 0.7 else algs[:1]):
+                    now = declared(a)
+                    pop = fresh_particles(cls, now, n, step == "pos")
+                    stats["history_calls"] += 1
+                    (observe_velocity if step == "vel" else observe_position)(a, pop, "history")
+
     # ---------- generated: update_global_best on hand-made swarms --------------------------------
     near = []
     for base in (0.9, 0.85, 0.95, 1.9, 1.7, 3.7, 0.45):
@@ -672,7 +770,7 @@ def run(ctx):
         finish_leaders(alg, size, "update_global_best", {})
 
     # ---------- short runs of the three algorithms, every update method observed in situ ----------
-    def gen_run(cls):
+    def gen_run(cls, again=None):
         n = rng.choice([1, 2, 2, 3])
         m = rng.choice([1, 2, 2, 3])
         bounds = []
@@ -709,13 +807,36 @@ def run(ctx):
             if getattr(alg, "mutator", None) is not None:
                 alg.mutator.probability = 0.0
         pyrandom.seed(rng.getrandbits(48))
+        alg._c18_history = ["built on box %r" % ([list(b) for b in bounds],)]
         start_leaders(alg)
+        extra = {"bounds": [list(b) for b in bounds], "population_number": gens, "cost_mode": mode}
         try:
+            if again and again["when"] == "before":
+                new = change_box(alg.problem, again["how"], again["mode"])
+                alg._c18_history.append("problem.parameters[i]['bounds'] changed in place (%s, %s) to %r" % (again["how"], again["mode"], [list(b) for b in new]))
+            alg._c18_history.append("run()")
             alg.run()
+            if again and again["when"] == "between":
+                # the SAME algorithm object (its leaders archive, its operators, whatever it remembers) runs again after
+                # the user changed the declared box in place; the in-situ observers judge every call on the current box
+                new = change_box(alg.problem, again["how"], again["mode"])
+                alg._c18_history.append("problem.parameters[i]['bounds'] changed in place (%s, %s) to %r" % (again["how"], again["mode"], [list(b) for b in new]))
+                alg._c18_history.append("run() again on the same algorithm object")
+                stats["runs_repeated_on_one_object_after_a_box_change"] += 1
+                alg.run()
+            if again:
+                extra["bounds_changed_in_place"] = dict(again, new_box=[list(b) for b in declared(alg)])
         except ZeroDivisionError:
             stats["runs_aborted_zero_division"] = stats.get("runs_aborted_zero_division", 0) + 1
+        except Exception as e:          # never on the unchanged code; e.g. a mutator fed a particle that was left outside the current box
+            if len(ctx.mismatches) < 30:
+                ctx.mismatches.append({"what": "%s.run() raised %r" % (cls.__name__, e), "correspondence": "c18_run",
+                                       "case": dict(extra, history_of_this_algorithm_object=history_of(alg))})
+            stats["runs"] += 1
+            LRec.target, LRec.events, LRec.compares = None, None, None
+            return
         stats["runs"] += 1
-        finish_leaders(alg, size, "run", {"bounds": [list(b) for b in bounds], "population_number": gens, "cost_mode": mode})
+        finish_leaders(alg, size, "run", extra)
 
     # ---------- corpus: boundary cases read off the code, run first -------------------------------
     def corpus():
@@ -802,6 +923,12 @@ def run(ctx):
         for _ in range(n_run):
             for cls in ALGS:
                 gen_run(cls)
+        for k in range(ctx.pick(12, 120)):
+            for cls in ALGS:
+                gen_run(cls, {"when": "between" if k % 3 else "before", "how": ["tighten", "shift", "tighten_much", "widen"][k % 4],
+                              "mode": ["rebind", "item", "dict"][(k // 2) % 3]})
+        for _ in range(ctx.pick(150, 1500)):
+            gen_history_case()
     finally:
         (sw.uniform, arch.choice, arch.sample, ops.math, ops.EpsilonDominance.compare,
          arch.Archive.add, arch.Archive.truncate) = saved
